@@ -220,7 +220,8 @@ def gen_case(rng, thorough=False, hazard=None):
             # below a separately refreshed ancestor may raise IndexError)
             if stale_from is not None and lvl > stale_from:
                 lvl = rng.randint(0, stale_from)
-            ops.append([3, 2, lvl, rng.randint(0, 4), 0])
+            ops.append([3, 2, lvl, rng.randint(0, 4),
+                        rng.choice([0, 0, 1, 2, 3, 4])])
         elif r < 0.90:
             ops.append([3, 1, 0, 0, 0])                     # refresh only
             stale_from = None
@@ -270,7 +271,17 @@ def gen_scenario(rng, thorough=False):
         elif r < 0.35 and not pure:
             ops.append([4, rng.randint(0, depth), rng.randint(0, 1), 0, 0])
         r = rng.random()
-        if r < 0.4:
+        if r < 0.12:
+            # the first access of a feature after a refresh asks for another
+            # dtype; plain reads (of this level and through it) follow
+            # (no refresh in between: it would empty the caches)
+            ops.append([3, 1, 0, 0, 0])
+            for _ in range(rng.randint(1, 2)):
+                lv, sl = rng.randint(1, depth), rng.randint(0, 4)
+                ops.append([3, 2, lv, sl, rng.randint(1, 4)])
+                ops.append([3, 2, rng.randint(lv, depth), sl, 0])
+                ops.append([3, 2, lv, sl, 0])
+        elif r < 0.4:
             ops.append([3, 0, 0, 0, 0])
         elif r < 0.6:
             # refresh without reading, new root data, then stray reads: some
@@ -338,7 +349,7 @@ def gen_sib(rng, thorough=False):
             b2 = rng.randint(0, 1)
             ops.append([10 * b2 + 3, 1, 0, 0, 0])
             ops.append([10 * b2 + 3, 2, rng.randint(0, depth[b2]),
-                        rng.randint(0, 4), 0])
+                        rng.randint(0, 4), rng.choice([0, 0, 1, 3, 4])])
     for lvl in range(nshared + 1):
         ops.append([0, lvl, 0, -1, n + 1])
     ops += [[3, 0, 0, 0, 0], [13, 0, 0, 0, 0], [3, 0, 0, 0, 0]]
@@ -785,8 +796,33 @@ def _run_impl(case, root):
                 lvl = b % (depth + 1)
                 name = (GIVEN + TEMPS)[c % NSLOT]
                 ds = chain[lvl].ds
-                if name in ds:
+                DT = [None, np.float32, np.float16, np.int64, bool]
+                dt = DT[d % 5]
+                if name in ds and dt is not None:
+                    # np.asarray(child[feat], dtype=...): the caller gets a
+                    # cast copy; the cache must keep the uncast array
                     try:
+                        got = np.asarray(ds[name], dtype=dt)
+                        flat += [31, 5, d % 5]
+                        if got.dtype != np.dtype(dt):
+                            oracle_fail("op %d: np.asarray(ds[%r], dtype=%s) "
+                                        "has dtype %s" % (opi, name, dt,
+                                                          got.dtype))
+                    except IndexError:
+                        flat += [31, 9]
+                        if chain[lvl].fresh:
+                            oracle_fail("op %d: reading %s on level %d "
+                                        "raised IndexError" % (opi, name,
+                                                               lvl))
+                elif name in ds:
+                    try:
+                        arr = np.asarray(ds[name][:])
+                        want_dt = np.asarray(root[name][:]).dtype
+                        if arr.dtype != want_dt:
+                            oracle_fail("op %d: %s on level %d has dtype %s, "
+                                        "the root's is %s" % (
+                                            opi, name, lvl, arr.dtype,
+                                            want_dt))
                         vals = feat_list(ds[name], "scalar")
                     except IndexError:
                         # legitimate only below a separately refreshed level
@@ -1037,6 +1073,10 @@ def view_mismatch(ds, parent, root, name, sel, rootids):
     c = np.asarray(ds[name][:])
     p = np.asarray(parent[name][:])[sel] if len(sel) else \
         np.asarray(parent[name][:])[:0]
+    rdt = np.asarray(root[name][:]).dtype
+    if c.dtype != rdt:
+        return "feature %s has dtype %s, the root's is %s" % (
+            name, c.dtype, rdt)
     if not eq(c, p):
         return "feature %s is %s, parent restricted to its filter is %s" % (
             name, c.tolist(), p.tolist())
